@@ -32,7 +32,7 @@ use graph::number_of_hops;
 
 use crate::{
     identifier::isd_asn::IsdAsn,
-    path::{ScionPath, fingerprint::data_plane::DpPathFingerprint},
+    path::{ScionPath, metadata::path_interface::PathInterface},
     segment::{Entry, PathSegment},
 };
 
@@ -116,15 +116,23 @@ fn has_loops(path: &ScionPath) -> bool {
 /// number of duplicates in wide network topologies.
 #[inline]
 fn filter_duplicates(paths: Vec<ScionPath>) -> Vec<ScionPath> {
-    // Store the index of the path with the latest expiry for every unique path fingerprint.
+    // Store the index of the path with the latest expiry for every unique interface sequence.
+    // The data plane fingerprint is not a suitable key: it also covers the unused interface of the
+    // hop field at a shortcut and the direction in which a core segment was beaconed, so paths
+    // over the same sequence of interfaces can have different data plane fingerprints.
     let mut path_result = Vec::new();
-    let mut unique_paths: HashMap<DpPathFingerprint, (u32, usize)> = HashMap::new();
+    let mut unique_paths: HashMap<Vec<PathInterface>, (u32, usize)> = HashMap::new();
     for path in paths.into_iter() {
-        let fingerprint = path.fingerprint();
+        let interfaces: Vec<PathInterface> = path
+            .metadata
+            .as_ref()
+            .and_then(|metadata| metadata.interfaces.as_ref())
+            .map(|interfaces| interfaces.iter().map(|i| i.interface).collect())
+            .unwrap_or_default();
 
-        match unique_paths.entry(fingerprint) {
-            // If we already have a path with the same fingerprint, compare the expiration and keep
-            // the one with the later expiration.
+        match unique_paths.entry(interfaces) {
+            // If we already have a path with the same interface sequence, compare the expiration
+            // and keep the one with the later expiration.
             std::collections::hash_map::Entry::Occupied(mut entry) => {
                 let (current_expiration, existing_vec_index) = entry.get_mut();
                 let new_expiration = path.expiration().unwrap_or(0);
